@@ -152,6 +152,12 @@ variable {K : Type} [Add K] [Zero K] [Mul K] [Div K] [Sub K] [NatCast K]
 def dithers1 (n : Nat) : List K :=
   (List.range n).map fun j => ((2 * j + 1 : Nat) : K) / ((2 * n : Nat) : K) - (1 : Nat) / (2 : Nat)
 
+/-- `make_supersampled_grid(grid, n)` along one axis of a regular grid (`zero`, `delta`, `dim` points): `dim·n` points
+with spacing `delta/n` starting at `zero - delta/2 + (delta/n)/2` -/
+def superAxis (zero delta : K) (dim n : Nat) : List K :=
+  (List.range (dim * n)).map fun (k : Nat) =>
+    (zero - delta / ((2 : Nat) : K) + delta / (n : K) / ((2 : Nat) : K)) + (k : K) * (delta / (n : K))
+
 /-- the per-point cell widths `evaluate_supersampled` uses along one axis:
 `x₁-x₀`, then `(x_{i+1}-x_{i-1})/2`, then `x_{n-1}-x_{n-2}` -/
 def deltasInner : List K → List K
